@@ -1,6 +1,8 @@
 package sim
 
 import (
+	"bufio"
+	"bytes"
 	"errors"
 	"fmt"
 	"strings"
@@ -19,7 +21,7 @@ func init() { Register(c14Checker{}) }
 func (c14Checker) ID() string { return "C14" }
 func (c14Checker) ProbeNames() []string {
 	return []string{"exec_fault_inside_include", "writer_fault_fired", "exec_fault_fired", "unbuffered_partial_output",
-		"context_rejected", "fault_swallowed_by_construct", "genuine_exec_error", "pair_fault", "lazy_include_executed"}
+		"context_rejected", "genuine_exec_error", "pair_fault", "lazy_include_executed", "stdlib_writer_run", "same_template_after_failure"}
 }
 func (c14Checker) Meta() CheckerMeta {
 	return CheckerMeta{
@@ -30,7 +32,7 @@ func (c14Checker) Meta() CheckerMeta {
 		Real:        []string{"pongo2 package (all four Execute* entry points, every tag/filter the generator writes)", "pongo2.FSLoader over the simulated fs.FS", "bytes.Buffer"},
 		Stub:        []string{"the caller's io.Writer (recording, faulting, sticky once failed)", "context call-backs y/yv/Cb, filter vsim, tag vsim (return the injected error)", "template files (in-memory disk)"},
 		Assumptions: []string{"the fault-free run of the same program/context is the reference for 'what a successful run would have produced'", "a failed writer stays failed (like a closed connection); only legal io.Writer behaviour is injected"},
-		QuickRuns: 6000, QuickRace: 0,
+		QuickRuns:   6000, QuickRace: 0,
 	}
 }
 
@@ -100,7 +102,9 @@ func (c14Checker) Run(tp *Tapes, opt RunOpt) *Outcome {
 
 	// ---- discovery: fault-free -----------------------------------------------------
 	clean := CtxDesc{Variant: cd.Variant}
-	ref, cerr := run(EpExecuteWriterUnbuffered, clean, nil) // what a successful run produces
+	var cerr string
+	var ref *ExecResult
+	ref, cerr = run(EpExecuteWriterUnbuffered, clean, nil) // what a successful run produces
 	if cerr != "" {
 		out.Discarded = true
 		out.probe("compile_failed")
@@ -287,6 +291,117 @@ func (c14Checker) Run(tp *Tapes, opt RunOpt) *Outcome {
 			}
 		}
 	}
+	// ---- ExecuteWriter into standard-library writers ------------------------------------------
+	// The all-or-nothing promise must not depend on what kind of io.Writer the caller hands in.
+	stdWriter := func(kind int, d CtxDesc, plan []FaultSpec) (written string, err error, pan string) {
+		w := NewWorld([]*DiskSpec{disk})
+		w.Plan = plan
+		old := SetCurWorld(w)
+		defer SetCurWorld(old)
+		set := w.NewProgSet(sp, "P", loaderKind)
+		tpl, cerr := set.FromFile(sp.Main)
+		if cerr != nil {
+			return "", cerr, ""
+		}
+		out.Execs++
+		defer func() {
+			if p := recover(); p != nil {
+				pan = fmt.Sprintf("%v\n%s", p, pongoFrames(shortStack()))
+			}
+		}()
+		lastCase = &c14Case{Entry: "ExecuteWriter->" + []string{"*bytes.Buffer", "*strings.Builder", "*bufio.Writer"}[kind], Plan: plan}
+		switch kind {
+		case 0:
+			var b bytes.Buffer
+			err = tpl.ExecuteWriter(w.BuildCtx(d), &b)
+			written = b.String()
+		case 1:
+			var b strings.Builder
+			err = tpl.ExecuteWriter(w.BuildCtx(d), &b)
+			written = b.String()
+		case 2:
+			var sink bytes.Buffer
+			bw := bufio.NewWriterSize(&sink, 16)
+			err = tpl.ExecuteWriter(w.BuildCtx(d), bw)
+			bw.Flush()
+			written = sink.String()
+		}
+		return written, err, ""
+	}
+	if !base[0].Failed() && len(out.Violations) == 0 {
+		ks := []int{0}
+		if K > 0 {
+			ks = append(ks, 1, K, 1+tp.Fault.Draw(K))
+		}
+		for _, k := range ks {
+			var plan []FaultSpec
+			if k > 0 {
+				plan = []FaultSpec{{Site: KCallback, Task: -1, Op: -1, Occ: k - 1, Fault: FExecErr, Disk: -1}}
+			}
+			for kind := 0; kind < 3; kind++ {
+				written, err, pan := stdWriter(kind, cd, plan)
+				out.probe("stdlib_writer_run")
+				switch {
+				case pan != "":
+					viol("panic", lastCase.Entry+" "+panicKey(pan), "ExecuteWriter panicked: "+firstLine(pan), nil, pan)
+				case err != nil && written != "":
+					viol("buffered_partial_write", lastCase.Entry, "ExecuteWriter wrote to the caller's writer although execution failed", "", written)
+				case err == nil && written != refOut:
+					viol("variants_disagree", lastCase.Entry+" bytes", "ExecuteWriter into a standard-library writer produced other bytes than the other entry points", refOut, written)
+				}
+			}
+		}
+	}
+
+	// ---- the same compiled template across entry points, after a failed execution ------------------
+	// "For the same template and context" the four entry points agree - also when an earlier
+	// execution of that very template died half-way through one of them.
+	if !base[0].Failed() && len(out.Violations) == 0 && K > 0 {
+		w := NewWorld([]*DiskSpec{disk})
+		old := SetCurWorld(w)
+		set := w.NewProgSet(sp, "P", loaderKind)
+		tpl, terr := set.FromFile(sp.Main)
+		if terr == nil {
+			opn := 0
+			on := func(ep int, plan []FaultSpec) *ExecResult {
+				for i := range plan {
+					plan[i].Op = opn
+				}
+				w.Plan = plan
+				w.active = map[int]int{}
+				w.OpBegin(opn)
+				r := w.Exec(tpl, ep, w.BuildCtx(cd), sp.Blocks)
+				w.OpEnd(opn)
+				opn++
+				out.Execs++
+				return r
+			}
+			for n := 0; n < 2 && len(out.Violations) == 0; n++ {
+				k := tp.Fault.Draw(K)
+				failVia := eps[tp.Fault.Draw(len(eps))]
+				fr := on(failVia, []FaultSpec{{Site: KCallback, Task: -1, Occ: k, Fault: FExecErr, Disk: -1}})
+				lastCase = &c14Case{Entry: "same template: " + epNames[failVia] + " failed at call-back " + fmt.Sprint(k+1) + ", then all four entry points", Plan: nil}
+				var rs []*ExecResult
+				for _, ep := range eps {
+					rs = append(rs, on(ep, nil))
+				}
+				out.probe("same_template_after_failure")
+				if !fr.Failed() {
+					continue
+				}
+				if agree(rs, "same template after a failed execution") {
+					for _, r := range rs {
+						if !r.Failed() && visible(r) != refOut {
+							viol("variants_disagree", "same template after a failed execution bytes", "after a failed execution of the same compiled template an entry point renders something else than a successful run would", refOut, obs(rs))
+							break
+						}
+					}
+				}
+			}
+		}
+		SetCurWorld(old)
+	}
+
 	for _, t := range sp.Tags {
 		if t == "include" && K > 0 {
 			out.probe("exec_fault_inside_include")
